@@ -29,6 +29,10 @@ std::string tls_check(uint64_t seed);
 int conform_run(bool verbose);
 int conform_dump_state();
 
+#if defined(SIM_COV)
+extern "C" void __gcov_dump(void);
+#endif
+
 static double now_s() { return std::chrono::duration<double>(std::chrono::steady_clock::now().time_since_epoch()).count(); }
 
 static const PropCfg kProps[] = {
@@ -332,6 +336,9 @@ static void worker_main(const PropCfg &cfg, int w, int nw, uint64_t base_seed, u
   write_all(out_fd, stats_json(ws));
   close(out_fd);
   fflush(nullptr);
+#if defined(SIM_COV)
+  __gcov_dump();
+#endif
   _exit(0);
 }
 
